@@ -93,6 +93,18 @@ N = {
  "C20-b2": ("descriptions cached; tiling analysis flips their parity in place", "collection analysed for tiling, then descriptions() compared with images()", "reuse history; bottom-up inputs"),
  "C20-1": ("resolved HDU cached by file path", "the same path listed twice with different indices", "repeated paths"),
  "C20-2": ("blank entries dropped from the --wcs-key list", "command-line key list containing the space key", "-"),
+ "C01-c1": ("the dispatcher, on a done-queue time-out, takes a ready tile itself and reports it with a blocking put to the bounded done queue it alone drains", "all workers busy for more than a receive time-out with tiles waiting, then 2*k completions during the dispatcher's own callback", "heavy-tailed callback durations (profile heavy_tail); general 'every live process is blocked' deadlock predicate (the old one only knew a polling dispatcher)"),
+ "C01-c2": ("worker reports completions with a time-limited put and re-runs the callback when the put times out", "dispatcher held up for more than a time-out with 2*k+1 completions pending", "- (slow_dispatcher profile)"),
+ "C03-c1": ("leaf-visit worker falls through after an empty poll and calls the callback again with the previous item", "a worker that already handled a leaf sits idle for a time-out before shutdown", "- (slow_dispatcher / late_check profiles)"),
+ "C03-c2": ("multi-TAN worker leaves after 20 accumulated (never reset) empty polls", "producer slower than the workers for 21 receive time-outs in total, items left afterwards", "producer-stall profile (two stalls of 12-32 time-outs at fixed early puts), 6-8 inputs under it"),
+ "C06-c1": ("leaf-visit worker retires after 10 consecutive empty polls", "a gap of more than 10 time-outs in the producer, leaves left afterwards", "producer-stall profile in the parallel sampling runs"),
+ "C06-c2": ("update_image takes no lock when the tile does not exist yet", "two jobs in update mode reaching the same new tile at the same time", "the two update passes as two concurrent jobs on one pyramid under statement-boundary delays (22 pairs per quick run)"),
+ "C09-c1": ("finish_workers raises the done flag before the queue is flushed", "feeder slower than a worker's receive time-out at wind-up", "-"),
+ "C09-c2": ("update_image breaks a tile lock after waiting 10 s", "two workers on one tile, the holder inside the locked region for more than 10 s", "statement-boundary delays inside toasty's tile I/O on a 300x dilated perf_counter in a third of the parallel runs"),
+ "C10-c1": ("finish_workers waits at most one second per worker; the processors then sweep lock files that are still held", "workers still updating a shared tile when the last item has been handed out", "new 'stage' histories: the real MultiTan/MultiWcs processors with every input landing in the same tile(s), workers descheduled between statements"),
+ "C10-c2": ("update_image breaks a lock whose recorded owner pid is gone - decided on what the lock file held earlier", "three parties: B reads the file while A holds, A releases and exits, C acquires, B's probe of A fails and B unlinks C's lock", "statement-boundary delay injection (sys.monitoring LINE events) in the updaters; 36 short histories per quick run in which updaters finish and exit while others still contend"),
+ "C19-c1": ("finish_workers raises the done flag before the feeder has flushed", "slow feeder at wind-up and the failing item still in the feeder's buffer", "slow_feeder profile in the fault runs"),
+ "C19-c2": ("walk dispatcher gained `finally: done_event.set()`; a sibling terminated inside Event.is_set dies holding the event's lock", "a worker failure and terminate() landing while a sibling is inside is_set()", "profile slow_isset (pause inside Event.is_set with its lock held); stuck-state rule for an owner blocked in Event.set; dead workers recognised through /proc"),
 }
 
 
